@@ -244,7 +244,7 @@ func c01filesChild(raw json.RawMessage, scratch string) {
 	r := wk.ChildRes("C01")
 	base := prng.New(a.Seed).Split(0xC01)
 	for i := a.Start; i < a.End; i++ {
-		rng := base.Split(uint64(i))
+		rng := base.At(uint64(i))
 		o := rdbgen.FileOpts{MaxKeys: rng.Pick(1, 3, 8, 40), MaxElems: rng.Pick(3, 20, 70, 130), Streams: true, Metadata: rng.Chance(3, 4), MultiDB: rng.Chance(2, 3), Expiry: true}
 		wide := rng.Pick(0, 0, 2, 6)
 		f := rdbgen.RandFile(rng, o)
@@ -339,7 +339,7 @@ func c01bigChild(raw json.RawMessage, scratch string) {
 	r := wk.ChildRes("C01")
 	base := prng.New(a.Seed).Split(0xB01)
 	for i := a.Start; i < a.End; i++ {
-		rng := base.Split(uint64(i))
+		rng := base.At(uint64(i))
 		shape := [][2]int{{40, 1 << 20}, {70, 600000}, {300, 170000}}[rng.Intn(3)]
 		d := bigDesc{Index: i, Fields: shape[0], ValueSize: shape[1], Expiry: i%2 == 0, Idle: i%3 == 0, Trailing: rng.Range(1, 4),
 			Note: "hash above the 16 MiB chunk limit, followed by more keys and a second database"}
